@@ -6,7 +6,7 @@ Layer B of C01/C13/C09, part 8: `CapsFx` for the whole class `XtermLike` — the
   palette colour (`rc.fit`) for RGB colours on palette terminals and for palette indices the terminal does not have;
 * `xl_underline_effect` — underline colour (indexed / direct / reset) + `smul` + underline style;
 * `xl_setPen_effect` — the whole style block of drawCell for EVERY style without hyperlink: pen = `penOf rc s`;
-* `xl_show_effect` (all four `cnorm` forms + DECSCUSR for the seven cursor styles), `xl_clear_effect` (both `clear` forms);
+* `xl_show_effect` (all four `cnorm` forms + DECSCUSR for the seven cursor styles), `xl_clear_effect` (the three `clear` forms: two CSI spellings, FF);
 * `xl_capsFx : XtermLike rc.ti → rc.d = derive rc.ti → FitOk rc → CapsFx dc rc`.
 
 `FitOk rc` is the only thing asked of the colour-fitting function `rc.fit` (go-colorful's nearest-palette-colour search, an
@@ -269,7 +269,8 @@ structure ColCaps (rc : RenderCfg) : Prop where
   afab : rc.ti.setFgBg = [] ∨ ∀ {rw : Int → Int} {t : Term}, Good rw t → ∀ f b, f < Render.nColors rc → b < Render.nColors rc →
     t.feed (tp rc (parm rc.ti.setFgBg (ints [((f : Nat) : Int), ((b : Nat) : Int)]))) =
       withPen t { t.pen with fg := .idx f, bg := .idx b }
-  reset : ∀ {rw : Int → Int} {t : Term}, Good rw t →
+  /-- `op`, written where sendFgBg writes it: right after `sgr0` (`PenReset`) -/
+  reset : ∀ {rw : Int → Int} {t : Term}, Good rw t → PenReset t →
     t.feed (tp rc rc.ti.resetFgBg) = withPen t { t.pen with fg := (opSel rc).1, bg := (opSel rc).2 }
   fRGB : rc.ti.setFgRGB = [] ∨ rc.ti.setFgRGB = setfRGB
   bRGB : rc.ti.setBgRGB = [] ∨ rc.ti.setBgRGB = setbRGB
@@ -416,16 +417,24 @@ theorem palKind_cases {ti : Terminfo} (h : (palKind ti).isSome = true) :
             exact Or.inr (Or.inr (Or.inr (Or.inr ⟨c.1.1.1, c.1.1.2, c.1.2, opt_of c.2⟩)))
           · simp at h
 
+theorem pen_eta_fgbg (p : Pen) (h1 : p.fg = .default) (h2 : p.bg = .default) :
+    ({ p with fg := .default, bg := .default } : Pen) = p := by
+  cases p; simp_all
+
 /-- **the colour strings of the class**: a colour terminal of one of the five palette families, or a monochrome one -/
 theorem xl_colcaps {rc : RenderCfg} (hx : CapsOk rc.ti = true) : ColCaps rc ∨ Mono rc := by
   have F := tiFacts hx
   rcases F.col with ⟨hk, hop'⟩ | hm
   · left
-    have hop : ∀ {rw : Int → Int} {t : Term}, Good rw t →
+    have hop : ∀ {rw : Int → Int} {t : Term}, Good rw t → PenReset t →
         t.feed (tp rc rc.ti.resetFgBg) = withPen t { t.pen with fg := (opSel rc).1, bg := (opSel rc).2 } := by
-      intro rw t g
+      intro rw t g hpr
+      have hkeep : withPen t { t.pen with fg := .default, bg := .default } = t := by
+        have : ({ t.pen with fg := .default, bg := .default } : Pen) = t.pen := by
+          apply pen_eta_fgbg <;> rw [hpr.2]
+        rw [this]; rfl
       simp only [opForms, List.mem_cons, List.not_mem_nil, or_false] at hop'
-      rcases hop' with h | h | h
+      rcases hop' with h | h | h | h | h
       · have e : opSel rc = (.default, .default) := by
           unfold opSel; rw [h, if_neg (by decide), if_neg (by decide)]
         rw [e, h, tp_clean rc _ (by decide)]; exact fgbgReset_effect g
@@ -433,6 +442,17 @@ theorem xl_colcaps {rc : RenderCfg} (hx : CapsOk rc.ti = true) : ColCaps rc ∨ 
         rw [e, h, tp_clean rc _ (by decide)]; exact opAix_effect g
       · have e : opSel rc = (.idx 7, .idx 0) := by unfold opSel; rw [h, if_neg (by decide), if_pos rfl]
         rw [e, h, tp_clean rc _ (by decide)]; exact opPc_effect g
+      · -- `CSI m`: a full SGR reset, right after `sgr0`
+        have e : opSel rc = (.default, .default) := by
+          unfold opSel; rw [h, if_neg (by decide), if_neg (by decide)]
+        rw [e, h, tp_clean rc _ (by decide), hkeep]
+        show t.feed [27, 91, 109] = t
+        rw [sgr_reset_effect _ g.st]; exact reset_of_penReset hpr
+      · have e : opSel rc = (.default, .default) := by
+          unfold opSel; rw [h, if_neg (by decide), if_neg (by decide)]
+        rw [e, h, tp_clean rc _ (by decide), hkeep]
+        show t.feed [27, 91, 48, 109] = t
+        rw [sgr0_effect _ g.st]; exact reset_of_penReset hpr
     have l := (show Render.nColors rc ≤ 256 by unfold Render.nColors; split <;> omega)
     have cleanF : ∀ n, tp rc (csiSeq (idxBody 30 90 38 n) 0x6d) = csiSeq (idxBody 30 90 38 n) 0x6d :=
       fun n => tp_clean rc _ (body_idx 30 90 38 n).clean
@@ -499,10 +519,6 @@ theorem xl_colcaps {rc : RenderCfg} (hx : CapsOk rc.ti = true) : ColCaps rc ∨ 
     obtain ⟨m1, m2, m3, m4, m5, m6, m7, m8⟩ := hm
     exact ⟨m1, m2, m3, m4, m5, m6, m7, m8⟩
 
-
-theorem pen_eta_fgbg (p : Pen) (h1 : p.fg = .default) (h2 : p.bg = .default) :
-    ({ p with fg := .default, bg := .default } : Pen) = p := by
-  cases p; simp_all
 
 theorem feed_ite {t : Term} (c : Prop) [Decidable c] (bs : Bytes) (p : Pen)
     (h : c → t.feed bs = withPen t p) : t.feed (if c then bs else []) = withPen t (if c then p else t.pen) := by
@@ -583,9 +599,11 @@ after `sgr0`), the colours become what the two colour values denote on this term
 `ColorDefault`/`ColorReset`/invalid, the exact RGB value in direct-colour mode, the palette index for palette colours
 the terminal has, and the FITTED palette colour (`rc.fit`) for everything else -/
 theorem col_sendFgBg_effect {rw} {rc : RenderCfg} (C : ColCaps rc) (hfit : FitOk0 rc) {t : Term} (g : Good rw t)
-    (h1 : t.pen.fg = .default) (h2 : t.pen.bg = .default) (fg bg attr : Nat) :
+    (hpr : PenReset t) (fg bg attr : Nat) :
     t.feed (Render.sendFgBg rc fg bg attr).1 = withPen t { t.pen with fg := fgSel rc fg bg, bg := bgSel rc fg bg } ∧
       (Render.sendFgBg rc fg bg attr).2 = attr := by
+  have h1 : t.pen.fg = .default := by rw [hpr.2]
+  have h2 : t.pen.bg = .default := by rw [hpr.2]
   rw [sendFgBg_unfold rc C.colors hfit]
   refine ⟨?_, rfl⟩
   simp only []
@@ -594,7 +612,7 @@ theorem col_sendFgBg_effect {rw} {rc : RenderCfg} (C : ColCaps rc) (hfit : FitOk
   generalize hp0 : (if fg = colorReset ∨ bg = colorReset then ({ t.pen with fg := (opSel rc).1, bg := (opSel rc).2 } : Pen) else t.pen) = p0
   have e0 : t.feed (if fg = colorReset ∨ bg = colorReset then tp rc rc.ti.resetFgBg else []) = withPen t p0 := by
     rw [← hp0]; split
-    · exact C.reset g
+    · exact C.reset g hpr
     · rfl
   rw [e0]
   have g0 := good_withPen g p0
@@ -709,22 +727,22 @@ call it right after `sgr0`), the colours become what the two colour values denot
 palette colours the terminal has, and the FITTED palette colour (`rc.fit`) for everything else; the attributes handed back are
 `effAttr` -/
 theorem xl_sendFgBg_effect {rw} {rc : RenderCfg} (hx : CapsOk rc.ti = true) (hfit : FitOk rc) {t : Term} (g : Good rw t)
-    (h1 : t.pen.fg = .default) (h2 : t.pen.bg = .default) (fg bg attr : Nat) :
+    (hpr : PenReset t) (fg bg attr : Nat) :
     t.feed (Render.sendFgBg rc fg bg attr).1 = withPen t { t.pen with fg := fgSel rc fg bg, bg := bgSel rc fg bg } ∧
       (Render.sendFgBg rc fg bg attr).2 = effAttr rc fg attr := by
   rcases xl_colcaps hx with C | M
-  · have := col_sendFgBg_effect C (hfit C.ncol) g h1 h2 fg bg attr
+  · have := col_sendFgBg_effect C (hfit C.ncol) g hpr fg bg attr
     refine ⟨this.1, ?_⟩
     rw [this.2]; simp [effAttr, monoFlip, C.colors]
   · rw [mono_sendFgBg M, fgSel_mono M, bgSel_mono M]
     refine ⟨?_, rfl⟩
-    rw [pen_eta_fgbg _ h1 h2]; rfl
+    rw [pen_eta_fgbg _ (by rw [hpr.2]) (by rw [hpr.2])]; rfl
 
 /-! ## underline -/
 
 /-- what the class says about the underline strings and the cursor strings -/
 structure UCaps (rc : RenderCfg) : Prop where
-  underline : Tcell.Spec.TermCaps.stripPadding rc.ti.underline = sgr1 4
+  underline : rc.ti.underline = [] ∨ Tcell.Spec.TermCaps.stripPadding rc.ti.underline = sgr1 4
   du : rc.d.doubleUnder = [] ∨ rc.d.doubleUnder = ulStyleStd 2
   cu : rc.d.curlyUnder = [] ∨ rc.d.curlyUnder = ulStyleStd 3
   dou : rc.d.dottedUnder = [] ∨ rc.d.dottedUnder = ulStyleStd 4
@@ -820,9 +838,29 @@ theorem xl_underline_effect {rw} {rc : RenderCfg} (U : UCaps rc) {t : Term} (g :
               rw [parm_ulIdx, tp_clean rc _ cl, ulIdx_effect g _ (by omega), this]
             · rw [if_neg hv]
               exact keep _ (by simp [ulSel, ne, hr, hrgb, hv])
-    rw [eC, tp_strip, U.underline, ul_effect (good_withPen g _)]
+    rw [eC]
+    -- `smul`, where the description has one
+    obtain ⟨u1, hu1, eU⟩ : ∃ u1 : Nat, u1 = (if rc.ti.underline.isEmpty = true then 0 else 1) ∧
+        (withPen t { t.pen with ulColor := ulSel rc uc }).feed (tp rc rc.ti.underline) =
+          withPen (withPen t { t.pen with ulColor := ulSel rc uc })
+            { (withPen t { t.pen with ulColor := ulSel rc uc }).pen with ul := u1 } := by
+      rcases U.underline with e | e
+      · refine ⟨0, by simp [e], ?_⟩
+        rw [e, tp_nil]
+        have hp : ({ ({ t.pen with ulColor := ulSel rc uc } : Pen) with ul := 0 } : Pen) = { t.pen with ulColor := ulSel rc uc } := by
+          cases hq : t.pen; rw [hq] at h1; simp_all
+        show withPen t _ = withPen t ({ ({ t.pen with ulColor := ulSel rc uc } : Pen) with ul := 0 } : Pen)
+        rw [hp]
+      · have hne : rc.ti.underline.isEmpty = false := by
+          cases h : rc.ti.underline with
+          | nil => rw [h] at e; exact absurd e (by decide)
+          | cons a l => rfl
+        refine ⟨1, by simp [hne], ?_⟩
+        rw [tp_strip, e, ul_effect (good_withPen g _)]
+    rw [eU]
     have g2 := good_withPen (good_withPen g { t.pen with ulColor := ulSel rc uc })
-      { (withPen t { t.pen with ulColor := ulSel rc uc }).pen with ul := 1 }
+      { (withPen t { t.pen with ulColor := ulSel rc uc }).pen with ul := u1 }
+    subst hu1
     -- style
     by_cases h2' : us = 2
     · rw [if_pos h2', stylePiece g2 2 (by omega) _ U.du]
@@ -877,7 +915,7 @@ theorem xl_setPen_effect {rw} {rc : RenderCfg} (hx : CapsOk rc.ti = true) (hd : 
   have D := dFacts hx hd
   have U := xl_ucaps hx hd
   have g0 := good_reset g
-  obtain ⟨hs1, hs2⟩ := xl_sendFgBg_effect hx hfit g0 rfl rfl s.fg s.bg s.attrs
+  obtain ⟨hs1, hs2⟩ := xl_sendFgBg_effect hx hfit g0 ⟨rfl, rfl⟩ s.fg s.bg s.attrs
   obtain ⟨cb, hcb⟩ : ∃ cb, Render.sendFgBg rc s.fg s.bg s.attrs = (cb, effAttr rc s.fg s.attrs) := ⟨_, Prod.ext rfl hs2⟩
   rw [hcb] at hs1
   have e : Render.render rc (.setPen s) =
@@ -1089,19 +1127,25 @@ theorem ed0_home_effect (t : Term) (hst : t.st = .ground) (hk : t.cursorKnown = 
     have : 0 < y ∨ y = 0 := by omega
     rcases this with h | h <;> simp [h]
 
-/-- the two `clear` forms of the class (`ESC [ H ESC [ 2 J`, `ESC [ H ESC [ J`): cursor home, every cell blank with the
-    current background -/
-theorem clearForm_effect {rw} {t : Term} (g : Good rw t) (s : Bytes) (hs : s ∈ clearForms) :
+/-- the three `clear` forms of the class (`ESC [ H ESC [ 2 J`, `ESC [ H ESC [ J`, and FF on a terminal that clears on FF —
+    `Config.ffClears`, the Sun console): cursor home, every cell blank with the current background -/
+theorem clearForm_effect {rw} {t : Term} (g : Good rw t) (s : Bytes) (hs : s ∈ clearForms) (hff : s = clearFF → t.cfg.ffClears = true) :
     ∃ G : Grid, t.feed s = { t with grid := G, cx := 0, cy := 0, pendingWrap := false, cursorKnown := true } ∧
       G.w = t.grid.w ∧ G.h = t.grid.h ∧ ∀ x y, x < t.grid.w → y < t.grid.h → G.get x y = t.blankCell := by
   simp only [clearForms, List.mem_cons, List.not_mem_nil, or_false] at hs
-  rcases hs with rfl | rfl
+  rcases hs with rfl | rfl | rfl
   · exact ⟨_, clear_effect t g.st, rfl, rfl, fun x y hx hy => Grid.get_fill _ _ _ _ _ hx hy⟩
   · show ∃ G : Grid, t.feed ([27, 91, 72] ++ [27, 91, 74]) = _ ∧ _
     rw [← feed_append, cup_home_effect t g.st]
     obtain ⟨G, e, hw, hh, hc⟩ := ed0_home_effect
       { t with cx := 0, cy := 0, pendingWrap := false, cursorKnown := true } g.st rfl rfl rfl
     exact ⟨G, e, hw, hh, hc⟩
+  · -- FF on a terminal that clears on it
+    have e : t.feed [12] = t.clearHome := by
+      have : t.feed [12] = if t.cfg.ffClears = true then t.clearHome else t.complain ("c0 " ++ hex2 12) := by
+        simp [feedByte, g.st, feedGround, c0]
+      rw [this, if_pos (hff rfl)]
+    exact ⟨_, e, rfl, rfl, fun x y hx hy => Grid.get_fill _ _ _ _ _ hx hy⟩
 
 /-- **`CapsFx.clear` for the class** — clearScreen (tscreen.go:1027): `sgr0`, hyperlink off, the colours of the style,
 `clear`.  Every cell of the emulator grid becomes a known blank carrying the style's background (bce), the cursor is at
@@ -1126,10 +1170,10 @@ theorem xl_clear_effect {rw} {rc : RenderCfg} (hx : CapsOk rc.ti = true) (hd : r
   rw [xl_attrOff_effect hx g, urlTail_effect D (good_reset g) q.link]
   have g1 : Good rw ({ reset t with linkKnown := true, pen := { (reset t).pen with link := none } } : Term) :=
     ⟨g.st, g.utf8, g.font, g.g0, g.so, g.irm, g.mal, g.rw⟩
-  rw [(xl_sendFgBg_effect hx hfit g1 rfl rfl s.fg s.bg 0).1]
+  rw [(xl_sendFgBg_effect hx hfit g1 ⟨rfl, rfl⟩ s.fg s.bg 0).1]
   have g2 := good_withPen g1 { ({ reset t with linkKnown := true, pen := { (reset t).pen with link := none } } : Term).pen with
     fg := fgSel rc s.fg s.bg, bg := bgSel rc s.fg s.bg }
-  obtain ⟨G, e, hw, hh, hc⟩ := clearForm_effect g2 _ F.clear
+  obtain ⟨G, e, hw, hh, hc⟩ := clearForm_effect g2 _ F.clear (fun h => q.ff h)
   refine ⟨G, ?_, hw, hh, ?_⟩
   · rw [e]; rfl
   · intro x y hx' hy'; rw [hc x y hx' hy']; rfl
@@ -1153,7 +1197,7 @@ theorem xl_capsFx (dc : DrawCfg) {rc : RenderCfg} (hx : CapsOk rc.ti = true) (hd
       obtain ⟨G, e, hw, hh, _⟩ := xl_clear_effect hx hd hfit g q s
       refine ⟨_, rfl, ?_, ?_, ?_, ?_, ?_, ?_⟩
       · rw [e]; exact ⟨g.st, g.utf8, g.font, g.g0, g.so, g.irm, g.mal, g.rw⟩
-      · rw [e]; exact ⟨fun _ => ⟨rfl, rfl⟩, q.vis⟩
+      · rw [e]; exact ⟨fun _ => ⟨rfl, rfl⟩, q.vis, q.ff⟩
       · rw [e]; exact hw
       · rw [e]; exact hh
       · rw [e]
